@@ -96,6 +96,8 @@ type rig struct {
 	srv      *eio.Server
 	ts       *httptest.Server
 	client   *http.Client
+	ts2      *httptest.Server // the same eio server behind TLS with HTTP/2
+	client2  *http.Client
 	mu       sync.Mutex
 	sockets  map[string]eio.ServerSocket
 	onSocket int64
@@ -139,6 +141,11 @@ func newRig() *rig {
 	})
 	g.ts = httptest.NewServer(g.srv)
 	g.client = &http.Client{Timeout: 4 * time.Second}
+	g.ts2 = httptest.NewUnstartedServer(g.srv)
+	g.ts2.EnableHTTP2 = true
+	g.ts2.StartTLS()
+	g.client2 = g.ts2.Client()
+	g.client2.Timeout = 4 * time.Second
 	return g
 }
 
@@ -147,6 +154,9 @@ func (g *rig) stop() {
 	g.client.CloseIdleConnections()
 	g.ts.CloseClientConnections()
 	g.ts.Close()
+	g.client2.CloseIdleConnections()
+	g.ts2.CloseClientConnections()
+	g.ts2.Close()
 }
 
 func (g *rig) closedSids() []string {
@@ -172,6 +182,11 @@ func (g *rig) state() stateObs {
 }
 
 type reqSpec struct {
+	// HTTP version the request arrives with: 0/1 = HTTP/1.1 over TCP, 2 = HTTP/2 over TLS (real
+	// connections); Direct: the handler is called with a request whose ProtoMajor is Proto (that is
+	// all the server looks at; the only way to present HTTP/3 and CONNECT without a QUIC stack)
+	Proto   int    `json:"proto"`
+	Direct  bool   `json:"direct"`
 	Method  string `json:"method"`
 	EIO     string `json:"eio"`
 	Tr      string `json:"tr"`
@@ -259,11 +274,18 @@ func (g *rig) url(rq reqSpec) string {
 	if rq.J {
 		q.Set("j", "0")
 	}
-	return g.ts.URL + "/engine.io/?" + q.Encode()
+	base := g.ts.URL
+	if rq.Proto == 2 && !rq.Direct {
+		base = g.ts2.URL
+	}
+	return base + "/engine.io/?" + q.Encode()
 }
 
 // do performs one request and records the states around it.
 func (g *rig) do(phase string, rq reqSpec, rr *recReader, conns *[]*websocket.Conn) (mxRow, error) {
+	if rq.Proto == 0 {
+		rq.Proto = 1
+	}
 	row := mxRow{Phase: phase, Req: rq}
 	rr.take()
 	s0, c0 := atomic.LoadInt64(&g.onSocket), atomic.LoadInt64(&g.onClose)
@@ -333,7 +355,43 @@ func (g *rig) do(phase string, rq reqSpec, rr *recReader, conns *[]*websocket.Co
 		if rq.Deny {
 			req.Header.Set("X-Verif-Auth", "deny")
 		}
-		resp, err := g.client.Do(req)
+		if rq.Direct {
+			req.Proto, req.ProtoMajor, req.ProtoMinor = fmt.Sprintf("HTTP/%d.0", rq.Proto), rq.Proto, 0
+			if rq.Proto == 1 {
+				req.Proto, req.ProtoMinor = "HTTP/1.1", 1
+			}
+			req.RequestURI = req.URL.RequestURI()
+			if req.Body == nil {
+				req.Body = http.NoBody
+			}
+			rec := httptest.NewRecorder()
+			done := make(chan struct{})
+			go func() {
+				defer close(done)
+				defer func() {
+					if p := recover(); p != nil {
+						row.Err = fmt.Sprintf("handler panicked: %v", p)
+					}
+				}()
+				g.srv.ServeHTTP(rec, req)
+			}()
+			select {
+			case <-done:
+				row.Resp.Status = rec.Code
+				row.Resp.Code, row.Resp.SID, row.Resp.Body = classifyBody(rec.Code, rec.Body.Bytes(), rq.J)
+			case <-time.After(4 * time.Second):
+				row.Resp.Code, row.Resp.Body, row.Err = -1, "other", "handler did not return within 4 s"
+			}
+			return g.finish(row, rr, s0, c0), nil
+		}
+		client := g.client
+		if rq.Proto == 2 {
+			client = g.client2
+		}
+		resp, err := client.Do(req)
+		if err == nil && rq.Proto == 2 && resp.ProtoMajor != 2 {
+			row.Err = "answered over " + resp.Proto + ", not HTTP/2"
+		}
 		if err != nil {
 			// no answer (e.g. a poll that blocks on a session that should not exist any more)
 			row.Resp.Code, row.Resp.Body, row.Err = -1, "other", fmt.Sprint(err)
@@ -619,6 +677,35 @@ func matrixMain(seed uint64, thorough bool, out *vk.Out) error {
 		}
 	}
 	specs = append(specs, reqSpec{Method: "GET", EIO: "4", Tr: "websocket", SIDKind: "absent", WsUp: true, Deny: true})
+	// the HTTP-version dimension: the (flag-less) matrix again over real HTTP/2 (TLS, h2), and with the
+	// handler called directly on requests that say HTTP/3 (all methods incl. CONNECT) and, for CONNECT,
+	// HTTP/1.1 and HTTP/2
+	for _, m := range methods {
+		for _, e := range eios {
+			for _, t := range trs {
+				for _, sk := range sidkinds {
+					specs = append(specs, reqSpec{Proto: 2, Method: m, EIO: e, Tr: t, SIDKind: sk})
+				}
+			}
+		}
+	}
+	deios, dkinds := eios, sidkinds
+	if !thorough {
+		deios, dkinds = []string{"", "3", "4"}, []string{"absent", "live", "closed"}
+	}
+	for _, m := range append(append([]string{}, methods...), "CONNECT") {
+		for _, e := range deios {
+			for _, t := range append(append([]string{}, trs...), "webtransport") {
+				for _, sk := range dkinds {
+					specs = append(specs, reqSpec{Proto: 3, Direct: true, Method: m, EIO: e, Tr: t, SIDKind: sk})
+					if m == "CONNECT" || (m == "GET" && t != "webtransport") {
+						specs = append(specs, reqSpec{Proto: 1, Direct: true, Method: m, EIO: e, Tr: t, SIDKind: sk},
+							reqSpec{Proto: 2, Direct: true, Method: m, EIO: e, Tr: t, SIDKind: sk})
+					}
+				}
+			}
+		}
+	}
 	if thorough {
 		// the same matrix again in a seeded random order (different store contents along the way)
 		n := len(specs)
@@ -700,7 +787,7 @@ func matrixMain(seed uint64, thorough bool, out *vk.Out) error {
 		if sp.WsUp && k%3 != 0 {
 			continue
 		}
-		if !thorough && !sp.WsUp && k%2 == 1 { // quick tier: every other request of the matrix (all answers are 503)
+		if !thorough && !sp.WsUp && k%4 != 1 { // quick tier: every fourth request of the matrix (all answers are 503)
 			continue
 		}
 		sp.SID, sp.SIDKind = pick(sp.SIDKind, k)
